@@ -900,10 +900,10 @@ impl Check for C13 {
                 "nestings": NESTS.iter().map(|k| k.name()).collect::<Vec<_>>(),
                 "reference_forms_without_import": 1 + enumerate::PFORMS.len(),
                 "import_path_forms": enumerate::PFORMS[..enumerate::n_pforms(cfg.tier)].iter().map(|p| p.join(".")).collect::<Vec<_>>(),
-                "import_kinds": ["single", "list", "module-then-path", "chain", "chain-reversed"],
+                "import_kinds": ["single", "list", "module-then-path", "chain", "chain-reversed", "chain-of-3-reversed"],
                 "import_placements": ["top-before", "top-after", "block-before", "block-after", "outer-before", "outer-after", "sibling-arm", "parent-module-top (use unchanged)", "parent-module-top (use via super.)", "parent-module-top (use via pkg...)"],
                 "import_forms_with_shadows": enumerate::FULL_PFORMS,
-                "import_shadows": enumerate::import_shadows(cfg.tier, 1).iter().map(|s| format!("{s:?}")).collect::<Vec<_>>(),
+                "import_shadows": enumerate::import_shadows(cfg.tier, 1, Kind::Const).iter().map(|s| format!("{s:?}")).collect::<Vec<_>>(),
                 "shadows": ["none", "let-first-seg", "let-first-seg-outer", "param-first-seg", "let-last-seg", "let-after-use", "pattern-first-seg"],
                 "disk_layouts": "every file/mod.roto choice for leaf modules; batches in all layouts; single-probe packages in one layout each (quick: every 4th probe)",
                 "get_function_paths": LOOKUP_PATHS,
